@@ -79,7 +79,28 @@ func (a *actor) sendWrite(p *Peer, sf *LFeat, cf *PFeat, fn PFunc, desc string) 
 	}
 	wo := &writeOp{peer: p, src: cf, dst: sf, fn: fn, ack: ack, canon: CanonAny(data), desc: desc, before: map[*Delivery]string{}, after: map[*Delivery]string{}}
 	wo.srcKnown = p.Entity(cf.Ent.Addr) != nil && p.Entity(cf.Ent.Addr).Feature(cf.ID) != nil
-	wo.ctr = p.SendCmd(cf.Address(), sf.Address(), model.CmdClassifierTypeWrite, ackp, cmd, "write:"+desc)
+	// who writes is a matter of the connection the write arrives on: the device part of the source
+	// address may be absent (it is optional) or name somebody else (a peer that claims the device
+	// address of the binding's owner gains nothing by it)
+	srcAddr := cf.Address()
+	switch w.T.Choose(8, "source-device") {
+	case 0:
+		srcAddr.Device = nil
+		desc += "+source-device-omitted"
+		wo.desc = desc
+		w.Probe("write-source-device-omitted")
+	case 1:
+		for _, q := range a.pr.Peers {
+			if q != p {
+				srcAddr.Device = util.Ptr(model.AddressDeviceType(q.Addr))
+				desc += "+source-device-of-another-peer"
+				wo.desc = desc
+				w.Probe("write-source-device-of-another-peer")
+				break
+			}
+		}
+	}
+	wo.ctr = p.SendCmd(srcAddr, sf.Address(), model.CmdClassifierTypeWrite, ackp, cmd, "write:"+desc)
 	a.writes = append(a.writes, wo)
 	return wo
 }
@@ -200,7 +221,24 @@ func (a *actor) run(p *Peer, nops int) {
 			a.extra = append(a.extra, RegOp{Kind: "entdrop", Peer: p.Name, Client: p.Addr + "/[1,1]/", OK: true, Desc: fmt.Sprint(ctr)})
 			await = ctr
 		default:
-			w.Yield("idle")
+			// the peer announces an entity it has announced before once more (as "added", with
+			// the same features): nothing changes for anybody - but the node builds its view of
+			// that entity anew
+			if e := p.Entity([]uint{1}); e != nil && w.T.Bool(1, 2, "re-announce") {
+				if e2 := p.Entity([]uint{1, 1}); e2 != nil && w.T.Bool(1, 3, "re-announce-second") {
+					e = e2
+				}
+				added := model.NetworkManagementStateChangeTypeAdded
+				cmd := model.CmdType{
+					Function:                            util.Ptr(model.FunctionTypeNodeManagementDetailedDiscoveryData),
+					Filter:                              []model.FilterType{*model.NewFilterTypePartial()},
+					NodeManagementDetailedDiscoveryData: p.DiscoveryData([]*PEnt{e}, &added, true),
+				}
+				await = p.SendCmd(p.NM().Address(), p.LocalNM(), model.CmdClassifierTypeNotify, nil, cmd, "entity-announced-again")
+				w.Probe("peer-announced-known-entity-again")
+			} else {
+				w.Yield("idle")
+			}
 		}
 		if await != 0 && w.T.Bool(2, 3, "await") {
 			p.Await(await)
